@@ -16,8 +16,9 @@
 
    pushdown_filters is modelled AFTER the repair (`fix:` commit): a predicate that only references
    join-output columns to the right of the left block is pushed to the right input with every
-   column index mapped through the right side's NON-KEY column list, and only when the two input
-   schemas add up to the join's own schema (second `fix:` commit: an empty Union has no schema).
+   column index mapped through the right side's NON-KEY column list when the join's declared
+   schema is left ++ right non-key columns (what joins emit), shifted by the left width when the
+   declared schema lists every right column, and not at all otherwise.
    [f_pushdown_old] is the original arithmetic (subtract the left width), kept for the
    refutation lemma.
    Executable definitions only. *)
@@ -138,8 +139,13 @@ Definition f_pushdown (t : ir) : ir :=
       let refs_right := existsb (fun c => lc <=? c) cols in
       if refs_left && negb refs_right then Join (Filter l p) r lk rk s
       else if refs_right && negb refs_left then
-        let nk := nonkey_cols (width r) rk in
-        if (lc + length nk =? length s) && forallb (fun c => c - lc <? length nk) cols
+        (* which right column a join-output index denotes is read off the declared schema:
+           left ++ ALL right columns (plain shift) or left ++ right NON-KEY columns *)
+        let nk := if lc + width r =? length s then seq 0 (width r)
+                  else if lc + length (nonkey_cols (width r) rk) =? length s
+                       then nonkey_cols (width r) rk
+                       else [] in
+        if forallb (fun c => c - lc <? length nk) cols
         then Join l (Filter r (remap_pred (fun c => nth (c - lc) nk 0) p)) lk rk s
         else t
       else t
